@@ -220,10 +220,17 @@ def wl_track(ctx, rng, case_no):
     clock = Clock()
     from rich.console import Console
     from rich.progress import Progress
-    console = Console(file=io.StringIO(), force_terminal=False, width=80, _environ={}, get_time=clock)
-    p = Progress(console=console, auto_refresh=auto, get_time=clock, refresh_per_second=1000)
+    # the kind of console must not matter for the accounting: a file, a terminal, a terminal that declares itself
+    # dumb / unknown (TERM), with or without colour
+    term = rng.choice([None, None, "dumb", "unknown", "xterm-256color"])
+    tty = rng.random() < 0.5
+    console = Console(file=io.StringIO(), force_terminal=tty, width=80, _environ={"TERM": term} if term else {},
+                      get_time=clock, color_system=rng.choice([None, "standard", "truecolor"]))
+    p = Progress(console=console, auto_refresh=auto, get_time=clock, refresh_per_second=1000,
+                 transient=rng.random() < 0.3, disable=False)
     got = []
-    wit = {"n": n, "generator": as_gen, "auto_refresh": auto, "stop_at": stop_at}
+    wit = {"n": n, "generator": as_gen, "auto_refresh": auto, "stop_at": stop_at, "TERM": term, "terminal": tty}
+    ctx.hist("track_console", "%s/%s" % ("tty" if tty else "file", term))
     ctx.count("mon.track")
     with p:
         seq = (x for x in items) if as_gen else list(items)
@@ -581,7 +588,7 @@ def _bit_in(value, amount):
 def workloads(tier):
     big = tier == "thorough"
     return [WL("sequential", wl_sequential, 400000 if big else 40000),
-            WL("track", wl_track, 3000 if big else 200),
+            WL("track", wl_track, 6000 if big else 400),
             WL("track_scheduled", wl_track_scheduled, 300000 if big else 12000),
             WL("concurrent", wl_concurrent, 200000 if big else 10000),
             WL("single_preemption_dfs", wl_dfs, 600 if big else 32)]
